@@ -210,6 +210,8 @@ def project(pid, op, group, canon, ctx):
             return status(res) + ("\n" + "\n".join(seen) if seen else "")
         if cmd == "inv":
             return "~" + res
+        if cmd == "reg":
+            return res  # which id a type gets and whether it is a relation decides what the entity reports
         return None
     if pid == "C02":
         if cmd in CREATE or cmd in ("alive", "stats", "dump"):
